@@ -267,7 +267,8 @@ def r19_6(ctx):
     stages = [
         ("RID", stage_blocks(lambda p, t: p.endswith("HashMap::<K, V, S, A>::get") and on_field(t, "by_rid"))),
         ("MID", stage_blocks(lambda p, t: p.endswith("ListenerRegistry::by_mid"))),
-        ("SSRC", stage_blocks(lambda p, t: p.endswith("HashMap::<K, V, S, A>::get") and on_field(t, "by_ssrc"))),
+        ("SSRC", stage_blocks(lambda p, t: (p.endswith("HashMap::<K, V, S, A>::get") and on_field(t, "by_ssrc")) or
+                              p.endswith("ListenerRegistry::by_ssrc_in_section"))),
         ("unique PT", stage_blocks(lambda p, t: p.endswith("ListenerRegistry::unique_by_pt"))),
         ("provisional", stage_blocks(lambda p, t: p.endswith("ListenerRegistry::single_provisional"))),
     ]
@@ -501,8 +502,19 @@ def r19_10(ctx):
     if not R19_10_STRICT:
         r.ok({"status": "armed together with the repair"})
         return r
-    for fn in ("transports::rtp::ListenerRegistry::unique_by_pt", "transports::rtp::ListenerRegistry::single_provisional"):
+    # the SSRC stage as well: a binding made for one section must not capture a packet that names another one
+    recv = ctx.body(RECV)
+    direct = [bi for bi, t, p in recv.calls() if p and p.endswith("HashMap::<K, V, S, A>::get") and t["a"]
+              and mir.has_field(recv.term_operand(t["a"][0]), "by_ssrc")]
+    for bi in direct:
+        r.violate(RECV, "route:ssrc-section-ignored", recv.where(bi),
+                  "receive() routes by the SSRC table directly: a packet naming another media section (an unregistered MID) is handed to the "
+                  "receiver its SSRC is bound to")
+    for fn in ("transports::rtp::ListenerRegistry::by_ssrc_in_section",
+               "transports::rtp::ListenerRegistry::unique_by_pt", "transports::rtp::ListenerRegistry::single_provisional"):
         fam = [nb for nb in ctx.facts.all_bodies() if nb.name == fn or nb.name.startswith(fn + "::{closure")]
+        if not fam and fn.endswith("by_ssrc_in_section") and direct:
+            continue        # reported above
         if not fam:
             raise core.CheckerError("R19.10: %s not found" % fn)
         r.scope.append(fn)
@@ -560,5 +572,64 @@ def r19_11(ctx):
     return r
 
 
+def r19_12(ctx):
+    """'delivered to at most one registered receiver - the one identified by its ... MID': the MID / RID / SSRC maps are
+    keyed by what packets carry, but an entry BELONGS to the receiver (channel) stored in it, and several receivers can
+    have used one key over time. Two obligations on ListenerRegistry:
+    (a) forgetting a receiver (remove_sender) removes entries by identity - `retain(.. !same_channel(tx))` - never by
+        key: a key may meanwhile belong to a live successor, which would silently lose its MID route;
+    (b) registering a receiver under a MID first drops the entries this receiver holds under other MIDs (a receiver
+        stands for one section), again by identity, before the insert."""
+    r = RuleResult("R19.12", "K4", "routing-table entries are dropped by receiver identity; one MID entry per receiver")
+    TABLES = ("by_mid", "by_rid", "by_ssrc")
+    n_retain = 0
+    for fn in ("transports::rtp::ListenerRegistry::remove_sender", "transports::rtp::ListenerRegistry::register_mid"):
+        b = ctx.body(fn)
+        r.scope.append(fn)
+        closures = {nb.name: nb for nb in ctx.facts.all_bodies() if nb.name.startswith(fn + "::{closure")}
+        for bi, t, p in b.calls():
+            if not p or not t["a"]:
+                continue
+            a0 = b.term_operand(t["a"][0])
+            tbl = next((f for f in TABLES if mir.has_field(a0, f)), None)
+            if tbl is None:
+                continue
+            m = p.split("::")[-1]
+            if m == "retain":
+                # which closure? the one named in the second argument's aggregate
+                cl = None
+                for x in mir.walk(b.term_operand(t["a"][1])) if len(t["a"]) > 1 else ():
+                    if x[0] == "agg" and isinstance(x[1], str) and x[1] in closures:
+                        cl = closures[x[1]]
+                if cl is None:
+                    cands = list(closures.values())
+                else:
+                    cands = [cl]
+                ident = any(any(cp and cp.endswith("::same_channel") for _, _, cp in c.calls()) for c in cands)
+                if ident:
+                    n_retain += 1
+                    r.ok({"function": fn.split("::")[-1], "table": tbl, "drops": "entries of this receiver (same_channel)"})
+                else:
+                    r.violate(fn, "drop:%s:not-by-identity" % tbl, b.where(bi), "retain on %s does not test receiver identity" % tbl)
+            elif m in ("remove", "remove_entry", "clear", "drain"):
+                r.violate(fn, "drop:%s:by-key" % tbl, b.where(bi),
+                          "%s drops an entry of %s by key (%s): the key can belong to another, live receiver by now - its route is lost and "
+                          "packets naming it fall through to weaker stages" % (fn.split("::")[-1], tbl, m))
+    r.need("identity-conditioned retain() sites", n_retain, 3)
+    # (b) order in register_mid
+    b = ctx.body("transports::rtp::ListenerRegistry::register_mid")
+    ins = [bi for bi, t, p in b.calls() if p and p.endswith("::insert") and t["a"] and mir.has_field(b.term_operand(t["a"][0]), "by_mid")]
+    ret = [bi for bi, t, p in b.calls() if p and p.endswith("::retain") and t["a"] and mir.has_field(b.term_operand(t["a"][0]), "by_mid")]
+    if len(ins) != 1:
+        raise core.CheckerError("R19.12: by_mid.insert not found in register_mid")
+    if ret and core.must_pass(b, ins[0], ret):
+        r.ok({"register_mid": "purges this receiver's other MID entries before inserting"})
+    else:
+        r.violate(b.name, "register_mid:stale-entry", b.where(ins[0]),
+                  "register_mid inserts without dropping the entries the receiver holds under other MIDs: after a MID change packets naming "
+                  "the old section still reach it")
+    return r
+
+
 def run(ctx):
-    return [r19_1(ctx), r19_2(ctx), r19_3(ctx), r19_4(ctx), r19_5(ctx), r19_6(ctx), r19_7(ctx), r19_8(ctx), r19_9(ctx), r19_10(ctx), r19_11(ctx)]
+    return [r19_1(ctx), r19_2(ctx), r19_3(ctx), r19_4(ctx), r19_5(ctx), r19_6(ctx), r19_7(ctx), r19_8(ctx), r19_9(ctx), r19_10(ctx), r19_11(ctx), r19_12(ctx)]
